@@ -202,6 +202,77 @@ func addStringModels(P *Program) {
 		v, _ := resolve(i, goString(args[0], "viper key"))
 		return lowerKeys(fn, v, false)
 	}
+	// viper.Unmarshal into a struct with mapstructure tags: strings, pointers to such structs and slices
+	// of them, filled from the configuration map (what dirk uses it for: the stores list)
+	var fill func(i *interpreter, t types.Type, src value) value
+	fill = func(i *interpreter, t types.Type, src value) value {
+		src = unbox(src)
+		switch tt := t.Underlying().(type) {
+		case *types.Basic:
+			if tt.Kind() == types.String {
+				if sv, ok := src.(string); ok {
+					return sv
+				}
+				return ""
+			}
+			return zero(t)
+		case *types.Pointer:
+			if src == nil {
+				return zero(t)
+			}
+			cell := fill(i, tt.Elem(), src)
+			return &cell
+		case *types.Slice:
+			list, ok := src.([]value)
+			if !ok {
+				return zero(t)
+			}
+			out := make([]value, 0, len(list))
+			for _, e := range list {
+				out = append(out, fill(i, tt.Elem(), e))
+			}
+			return out
+		case *types.Struct:
+			res := zero(t).(structure)
+			m, _ := src.(*hashmap)
+			for k := 0; k < tt.NumFields(); k++ {
+				name := strings.ToLower(tt.Field(k).Name())
+				if tag := reflectTag(tt.Tag(k), "mapstructure"); tag != "" {
+					name = strings.ToLower(tag)
+				}
+				if m == nil {
+					continue
+				}
+				for _, e := range m.list {
+					if ks, ok := e.key.(string); ok && !e.dead && strings.ToLower(ks) == name {
+						res[k] = fill(i, tt.Field(k).Type(), e.value)
+					}
+				}
+			}
+			return res
+		}
+		return zero(t)
+	}
+	h[vp+".Unmarshal"] = func(i *interpreter, fr *frame, fn *ssa.Function, args []value) value {
+		target, ok := args[0].(iface)
+		if !ok || target.t == nil {
+			return i.mkError("viper: Unmarshal(nil)")
+		}
+		pt, ok := target.t.Underlying().(*types.Pointer)
+		if !ok {
+			return i.mkError("viper: Unmarshal(non-pointer)")
+		}
+		// the whole configuration as one map
+		root := makeMap(types.Typ[types.String], 0).(*hashmap)
+		for k, v := range cfg(i) {
+			if !strings.Contains(k, ".") {
+				root.insert(k, v)
+			}
+		}
+		dst := target.v.(*value)
+		store(pt.Elem(), dst, fill(i, pt.Elem(), root))
+		return iface{}
+	}
 	h[vp+".GetDuration"] = func(i *interpreter, fr *frame, fn *ssa.Function, args []value) value {
 		v, ok := cfg(i)[goString(args[0], "viper key")]
 		if !ok {
@@ -210,4 +281,17 @@ func addStringModels(P *Program) {
 		n, _ := v.(int64)
 		return n
 	}
+}
+
+// reflectTag extracts key:"value" from a struct tag.
+func reflectTag(tag, key string) string {
+	k := strings.Index(tag, key+":\"")
+	if k < 0 {
+		return ""
+	}
+	rest := tag[k+len(key)+2:]
+	if e := strings.Index(rest, "\""); e >= 0 {
+		return strings.Split(rest[:e], ",")[0]
+	}
+	return ""
 }
